@@ -90,7 +90,7 @@ func c06Enum(yield func(c06Case)) {
 				yield(c06Case{Kind: "bin", Op: op, A: a, B: b})
 			}
 		}
-		for _, k := range []string{"not", "where", "exists", "all", "iif", "asbool"} {
+		for _, k := range []string{"not", "where", "exists", "all", "iif", "iif2", "asbool"} {
 			yield(c06Case{Kind: k, A: a})
 		}
 	}
@@ -197,6 +197,9 @@ func c06Run(ctx *Ctx, c c06Case) {
 	case "iif":
 		src = "iif(" + c.A.Expr + ", true, false)"
 		want = map[string]string{"T": "T", "F": "F", "E": "F", "err": "err"}[c06Val(c.A)]
+	case "iif2": // the form without an otherwise-result: true → the result, false/empty → empty
+		src = "iif(" + c.A.Expr + ", true)"
+		want = map[string]string{"T": "T", "F": "E", "E": "E", "err": "err"}[c06Val(c.A)]
 	case "asbool":
 		src = c.A.Expr
 		want = map[string]string{"T": "T", "F": "F", "E": "F", "err": "err"}[c06Val(c.A)]
